@@ -12,7 +12,13 @@ from math import comb
 
 import tast
 import cx as CX
-from cx import Cx, CxUnknown, POISON, run_best_effort
+from cx import CxUnknown, POISON, run_best_effort
+from cxs import CxS as _CxS
+
+
+class Cx(_CxS):
+    """the exact evaluator, tolerant of tests it cannot decide (what their branches assign becomes undetermined)"""
+    lenient_if = True
 from poly import Poly
 from protocol import main_loop_of, SOLOUT
 
@@ -153,6 +159,8 @@ def base_env(r, k, rows):
             env[lid_] = [[Poly.atom("%s_%d" % (nm, j))] for j in range(rows)]
         elif t == "f64":
             env[lid_] = Poly.atom(nm)
+        elif t.endswith("methods::Tolerance") or t.endswith("Tolerance"):
+            env[lid_] = [Poly.atom(nm)]      # per-component tolerances: one generic component, like the state vectors
         elif t == "usize" and nm == "n":
             env[lid_] = 1
         else:
@@ -416,6 +424,10 @@ def r_bdf_interp(rep, f):
         rep.inconc("R-BDF-INTERP", key, "the buffer handed to StepInterpolant::new was not found")
         return
     region = [e for e in top[i_acc + 1:i_cb] if cont_id in CX.written_locals(e)]
+    if region:
+        # plain definitions between acceptance and the callback that the writers may use (`let order_marker = order as Float;`)
+        first = next(i for i, e in enumerate(top) if e is region[0])
+        region = [e for e in top[i_acc + 1:i_cb] if e in region or (e.get("k") == "Let" and not tast.contains(e, lambda z: z.get("k") in ("Call", "MethodCall") and (z.get("def") or "") in f.bodies))]
     if not region:
         rep.inconc("R-BDF-INTERP", key, "no statement fills the dense-output block after acceptance")
         return
@@ -468,3 +480,80 @@ def r_bdf_interp(rep, f):
         rep.violation("R-BDF-INTERP", key, bad[0], f.bodies[INTERP].get("sp"))
     else:
         rep.ok("R-BDF-INTERP", key, "orders 1..%d: solve() stores a %d-slot block per state and interpolate() passes through the last k+1 solution values (in particular u(xold) = y_old, u(x) = y_new)" % (mo, block))
+
+
+def r_bdf_restart(rep, f, arms, rule="R-MODIFIED-REEVAL"):
+    """After a callback answered ModifiedSolution the multistep history is worthless: the arm must restart it as a first-order
+    method from the state the callback wrote.  The arm is *evaluated* exactly (helpers of any shape included) from an
+    arbitrary difference table, with y, the step magnitude, the direction and the freshly evaluated f(x, y) as symbols:
+    afterwards row 0 is y, row 1 is h*direction*f(x, y) with every factor exactly once, every higher row is 0, the order is 1.
+    Returns the list of arm indices it decided (the shape-based rule handles the others)."""
+    r = find_roles(f)
+    decided = []
+    if r is None:
+        return decided
+    mo = max_order_of(f, Cx(f)) or 5
+    rows = mo + 3
+    for j, a in enumerate(arms):
+        key = "%s:%s:history-restart:%s" % (rule, SOLVE, "initial" if j == 0 else "per-step")
+        rec = {}
+
+        def extern(c, node, d, env, rec=rec):
+            if d == ODE and len(node.get("args", [])) == 3:
+                out = CX.deref(c.ev(node["args"][2], env))
+                yv = CX.deref(c.ev(node["args"][1], env))
+                rec["ode_y"] = list(yv) if isinstance(yv, list) else yv
+                if isinstance(out, list):
+                    out[0] = Poly.atom("F")
+                    rec["slot"] = id(out)
+                return None
+            return NotImplemented
+        c = Cx(f, extern=extern)
+        env = base_env(r, 3, rows)
+        body = a["body"]
+        stmts = [unwrap(s_) for s_ in body.get("stmts", [])] + ([body["tail"]] if body.get("tail") is not None else []) if body.get("k") == "Block" else [body]
+        run_best_effort(c, stmts, env)
+        d = env.get(r.d)
+        order = env.get(r.order)
+        if d is POISON or not isinstance(d, list) or "ode_y" not in rec:
+            continue      # not evaluated: left to the shape-based rule
+        ys = [lid_ for lid_, (nm, ty) in r.locals.items() if nm == "y" and "Vec<f64>" in ty]
+        yv = env.get(ys[0]) if ys else None
+        probs = []
+        if order != 1:
+            probs.append("the order is %r afterwards, not 1" % (order,))
+        if not (isinstance(d[0], list) and isinstance(yv, list) and d[0] and d[0][0] == yv[0]):
+            probs.append("difference row 0 is %r, not the state the callback wrote" % (d[0][0] if isinstance(d[0], list) and d[0] else d[0],))
+        if rec.get("ode_y") is not None and isinstance(yv, list) and isinstance(rec["ode_y"], list) and rec["ode_y"] and rec["ode_y"][0] != yv[0]:
+            probs.append("the derivative is re-evaluated at %r, not at the modified state" % (rec["ode_y"][0],))
+        d1 = d[1][0] if isinstance(d[1], list) and d[1] else None
+        dir_atoms = [lid_ for lid_, (nm, ty) in r.locals.items() if nm == "direction" and ty == "f64"]
+        dirv = env.get(dir_atoms[0]) if dir_atoms else None
+        ok1 = False
+        if isinstance(d1, Poly) and len(d1.t) == 1:
+            (mono, coef), = d1.t.items()
+            names = dict(mono)
+            has_f = names.get("F") == 1
+            da = dirv.single_atom() if isinstance(dirv, Poly) else None
+            has_dir = da is not None and names.get(da) == 1
+            others = [(n_, e_) for n_, e_ in mono if n_ not in ("F", da)]
+            ok1 = has_f and has_dir and coef == 1 and len(others) == 1 and others[0][1] == 1
+            if has_f and not has_dir:
+                probs.append("difference row 1 is %r: the step is used without the direction of integration (or with it twice)" % (d1,))
+            elif not ok1:
+                probs.append("difference row 1 is %r, not h * direction * f(x, y)" % (d1,))
+        else:
+            probs.append("difference row 1 is %r, not h * direction * f(x, y)" % (d1,))
+        for kk in range(2, len(d)):
+            v = d[kk][0] if isinstance(d[kk], list) and d[kk] else d[kk]
+            if not (isinstance(v, Poly) and v.is_zero()):
+                probs.append("difference row %d keeps %r from the discarded history" % (kk, v))
+                break
+        decided.append(j)
+        if probs:
+            dirp = [p_ for p_ in probs if "direction" in p_]
+            rep.violation(rule, key + (":direction" if dirp and len(probs) == len(dirp) else ""), "; ".join(probs) + ": after ModifiedSolution the solver continues with a history that does not belong to the new state", a.get("sp"))
+        else:
+            rep.ok(rule, key, "evaluated exactly: row 0 = y, row 1 = %r, rows 2.. = 0, order = 1" % (d1,))
+            rep.ok(rule, key + ":direction", "the first difference carries the direction of integration exactly once")
+    return decided
